@@ -372,17 +372,7 @@ def run(tier):
             rec = dict(slim, case=r["case"])
             detail = {"missing": missing, "input": ws[0]["val"], "fill": ws[0]["fm"],
                       "n_failing_inputs": len(ws)}
-            hit = None
-            for f in out.findings:
-                m = MATCHERS.get(f["match"])
-                if m and m(rec, clause, detail, f):
-                    hit = f["id"]
-                    break
-            if hit:
-                out.known_hit[hit] = out.known_hit.get(hit, 0) + 1
-                out.known_examples.setdefault(hit, {"case": slim, "clause": clause, "detail": detail})
-            else:
-                out.violations.append({"case": slim, "clause": clause, "detail": detail})
+            out.classify(rec, clause, detail, slim)
     cov = {"states": res.states, "transitions": res.transitions,
            "traces_validated_against_impl": len(ok), "evaluations": len(results),
            "distinct_nontrivial": reached,
